@@ -51,6 +51,10 @@ type c13Scenario struct {
 	// PingFails (health check on, interface-level client): the cluster stops answering pings shortly before Close(), so
 	// that Close() arrives while the health check sits in the retry wait of a failing round
 	PingFails bool `json:"ping_fails,omitempty"`
+	// EndedBefore (interface-level client, current servers, >= 2 vBuckets): the server has ended the last vBucket's stream
+	// for good before Close() arrives (ok = end of the stream, filter_empty = its collections were dropped); the close request
+	// for that vBucket is answered "no such stream", as a node does
+	EndedBefore string `json:"ended_before,omitempty"`
 }
 
 type c13Result struct {
@@ -244,6 +248,16 @@ func c13Child(raw json.RawMessage) any {
 			}
 			res.PingFailedBeforeClose = failedPings.Load() > 0
 			t0 = time.Now()
+		}
+		if sc.EndedBefore != "" && client == couchbase.Client(cl) && sc.NVb >= 2 && !sc.OldServer {
+			cl.mu.Lock()
+			cl.closeNotFound = true
+			cl.mu.Unlock()
+			var cause error
+			if sc.EndedBefore == "filter_empty" {
+				cause = gocbcore.ErrDCPStreamFilterEmpty
+			}
+			cl.serverEnd(uint16(sc.NVb-1), cause)
 		}
 		cl.mu.Lock()
 		opensAtClose = len(cl.opens)
@@ -587,6 +601,9 @@ func c13Gen(rt *rapid.T) c13Scenario {
 	if !sc.OldServer && sc.NVb >= 2 && (!sc.Mitigate || sc.State == "gate_blocked") && !strings.HasPrefix(sc.State, "rebalance_") && rapid.IntRange(0, 2).Draw(rt, "endinclose") == 0 {
 		sc.EndInClose = rapid.SampledFrom([]string{"state", "slow", "backfill", "disconnected", "socket"}).Draw(rt, "endcause")
 	}
+	if !sc.OldServer && sc.NVb >= 2 && !sc.Mitigate && !strings.HasPrefix(sc.State, "rebalance_") && rapid.IntRange(0, 1).Draw(rt, "endedbefore") == 0 {
+		sc.EndedBefore = rapid.SampledFrom([]string{"ok", "filter_empty"}).Draw(rt, "endedcause")
+	}
 	sc.CBMember = sc.Mitigate && sc.State != "gate_blocked" && !strings.HasPrefix(sc.State, "rebalance_") && rapid.IntRange(0, 3).Draw(rt, "cbmember") > 0
 	if sc.State == "monitor_inflight" {
 		sc.CBMember = true
@@ -655,6 +672,9 @@ func TestC13_Shutdown(t *testing.T) {
 		}
 		if scs[i].CBMember {
 			labs = append(labs, "couchbase_membership")
+		}
+		if scs[i].EndedBefore != "" {
+			labs = append(labs, "stream_ended_for_good_before_close")
 		}
 		if scs[i].EndInClose != "" {
 			labs = append(labs, "server_ends_stream_during_close")
